@@ -13,6 +13,7 @@ import (
 	"fmt"
 	"go/ast"
 	"go/parser"
+	"go/printer"
 	"go/token"
 	"os"
 	"path/filepath"
@@ -22,6 +23,12 @@ import (
 )
 
 var fset = token.NewFileSet()
+
+func exprString(e ast.Expr) string {
+	var b strings.Builder
+	printer.Fprint(&b, fset, e)
+	return b.String()
+}
 var files = map[string]*ast.File{}
 var consts = map[string]int64{}
 var constOrder []string
@@ -591,16 +598,26 @@ func main() {
 	// package-level variables and whether anything outside init assigns them
 	{
 		globals := map[string]bool{}
+		pkgSpecs := map[any]bool{}
 		for _, f := range files {
 			for _, d := range f.Decls {
 				if gd, ok := d.(*ast.GenDecl); ok && gd.Tok == token.VAR {
 					for _, s := range gd.Specs {
+						pkgSpecs[s] = true
 						for _, n := range s.(*ast.ValueSpec).Names {
 							globals[n.Name] = false
 						}
 					}
 				}
 			}
+		}
+		// an identifier denotes the package-level variable if it is unresolved within its file (declared in
+		// another file) or resolved to a package-level declaration of the same file
+		isGlobal := func(id *ast.Ident) bool {
+			if _, g := globals[id.Name]; !g {
+				return false
+			}
+			return id.Obj == nil || pkgSpecs[id.Obj.Decl]
 		}
 		for _, f := range files {
 			for _, d := range f.Decls {
@@ -627,17 +644,13 @@ func main() {
 								}
 								break
 							}
-							if id, ok := root.(*ast.Ident); ok {
-								if _, g := globals[id.Name]; g && id.Obj == nil {
-									globals[id.Name] = true
-								}
+							if id, ok := root.(*ast.Ident); ok && isGlobal(id) {
+								globals[id.Name] = true
 							}
 						}
 					case *ast.IncDecStmt:
-						if id, ok := x.X.(*ast.Ident); ok {
-							if _, g := globals[id.Name]; g && id.Obj == nil {
-								globals[id.Name] = true
-							}
+						if id, ok := x.X.(*ast.Ident); ok && isGlobal(id) {
+							globals[id.Name] = true
 						}
 					}
 					return true
@@ -657,6 +670,93 @@ func main() {
 			w("(%s, %v)", q(n), globals[n])
 		}
 		w("].\n")
+	}
+
+	// the execution side (machine.go, oplogic.go, disasm.go, Execute and printXStats of api.go) never assigns
+	// through a Prog: rows (function, assigned expression) for every assignment whose target goes through a
+	// parameter or receiver of type Prog / *Prog or through a selector `.prog`
+	{
+		isProgType := func(e ast.Expr) bool {
+			if st, ok := e.(*ast.StarExpr); ok {
+				e = st.X
+			}
+			id, ok := e.(*ast.Ident)
+			return ok && id.Name == "Prog"
+		}
+		var rows []string
+		fnames := make([]string, 0, len(files))
+		for n := range files {
+			fnames = append(fnames, n)
+		}
+		sort.Strings(fnames)
+		for _, fn := range fnames {
+			for _, d := range files[fn].Decls {
+				fd, ok := d.(*ast.FuncDecl)
+				if !ok || fd.Body == nil {
+					continue
+				}
+				execSide := fn == "machine.go" || fn == "oplogic.go" || fn == "disasm.go" ||
+					(fn == "api.go" && (fd.Name.Name == "Execute" || fd.Name.Name == "printXStats"))
+				if !execSide {
+					continue
+				}
+				progVars := map[string]bool{}
+				lists := []*ast.FieldList{fd.Recv, fd.Type.Params}
+				for _, fl := range lists {
+					if fl == nil {
+						continue
+					}
+					for _, f := range fl.List {
+						if isProgType(f.Type) {
+							for _, n := range f.Names {
+								progVars[n.Name] = true
+							}
+						}
+					}
+				}
+				through := func(e ast.Expr) bool {
+					for {
+						switch y := e.(type) {
+						case *ast.IndexExpr:
+							e = y.X
+						case *ast.StarExpr:
+							e = y.X
+						case *ast.ParenExpr:
+							e = y.X
+						case *ast.SelectorExpr:
+							if y.Sel.Name == "prog" {
+								return true
+							}
+							if id, ok := y.X.(*ast.Ident); ok && progVars[id.Name] {
+								return true
+							}
+							e = y.X
+						default:
+							return false
+						}
+					}
+				}
+				ast.Inspect(fd.Body, func(n ast.Node) bool {
+					switch x := n.(type) {
+					case *ast.AssignStmt:
+						if x.Tok == token.DEFINE {
+							return true
+						}
+						for _, l := range x.Lhs {
+							if through(l) {
+								rows = append(rows, fmt.Sprintf("(%s, %s)", q(fd.Name.Name), q(exprString(l))))
+							}
+						}
+					case *ast.IncDecStmt:
+						if through(x.X) {
+							rows = append(rows, fmt.Sprintf("(%s, %s)", q(fd.Name.Name), q(exprString(x.X))))
+						}
+					}
+					return true
+				})
+			}
+		}
+		w("Definition prog_writes_in_execution : list (string * string) :=\n  [%s].\n", strings.Join(rows, "; "))
 	}
 
 	out := b.String()
